@@ -6,4 +6,5 @@ INVARIANTS
   PrattOK
   DispatchOK
   Emit
+  EmitRequired
 CHECK_DEADLOCK FALSE
